@@ -1,4 +1,5 @@
-"""Regenerate harness/fingerprints.json: AST hashes of every anchored source file of /repo as it is now.
+"""Regenerate harness/fingerprints.json: AST hashes of every anchored source file of /repo, and of every
+module of the package the anchored files import (transitively), as they are now.
 Run after every accepted change of /repo (fix: commits).  Usage: /venv/bin/python harness/fingerprint.py"""
 import importlib
 import json
@@ -11,7 +12,7 @@ files = set()
 for f in sorted(os.listdir(os.path.join(C.VERIF, "harness", "props"))):
     if f.startswith("C") and f.endswith(".py"):
         mod = importlib.import_module("props.%s" % f[:-3])
-        files.update(C.anchors_for(f[:-3], mod))
+        files.update(C.import_closure(C.anchors_for(f[:-3], mod)))
 out = {rel: C.ast_fingerprint(os.path.join(C.REPO, rel)) for rel in sorted(files)}
 json.dump(out, open(os.path.join(C.VERIF, "harness", "fingerprints.json"), "w"), indent=1)
 print(len(out), "files fingerprinted")
